@@ -5,6 +5,7 @@
 import OttoVerif.Base.Proto
 import OttoVerif.C05.Spec
 import OttoVerif.Base.ParseNumber
+import OttoVerif.C05.Obj
 namespace OttoVerif.C05.Driver
 open OttoVerif.F64 OttoVerif.Proto OttoVerif.C05
 
@@ -54,6 +55,34 @@ def devConv (_v : Val) : String := "-"    -- (region toInt_big repaired by fix 9
 
 def reply (m s : String) (dev : String) : String := m ++ " " ++ s ++ " " ++ dev
 
+/-- operand token: a primitive value token, or `o(<id>;<date 0|1>;<valueOf beh>;<toString beh>)` with
+    beh = `p<val>` | `o` | `n` | `t<val>` -/
+def beh? (t : String) : Option Obj.Beh :=
+  match t.toList with
+  | ['o'] => some .obj
+  | ['n'] => some .notCallable
+  | 'p' :: r => (val? (String.ofList r)).map .prim
+  | 't' :: r => (val? (String.ofList r)).map .throws
+  | _ => none
+
+def operand? (t : String) : Option Obj.OV :=
+  if t.startsWith "o(" then
+    match (String.ofList ((t.toList.drop 2).dropLast)).splitOn ";" with
+    | [i, d, v, s] => do
+      let i ← i.toNat?
+      let v ← beh? v
+      let s ← beh? s
+      pure (.obj { id := i, isDate := d = "1", valueOf := v, toStr := s })
+    | _ => none
+  else (val? t).map .prim
+
+def rOut (r : Obj.R Val) : String :=
+  let lg (l : List String) := if l.isEmpty then "-" else ",".intercalate l
+  match r with
+  | .ok v l => valOut v ++ "|" ++ lg l
+  | .typeError l => "throw:TypeError|" ++ lg l
+  | .thrown v l => "throw:" ++ valOut v ++ "|" ++ lg l
+
 def handle (ws : List String) : String :=
   match ws with
   | ["toInt32", a] => match val? a with
@@ -88,6 +117,13 @@ def handle (ws : List String) : String :=
     | some o, some x, some y =>
       let dev := "-"
       reply (valOut (binNum env o x y)) (valOut (Spec.binNum env o x y)) dev
+    | _, _, _ => "bad-op"
+  | ["oop", o, a, b] =>
+    let op : Option Obj.Op := match bin? o with
+      | some bo => some (.bin bo)
+      | none => (cmp? o).map .cmp
+    match op, operand? a, operand? b with
+    | some op, some x, some y => reply (rOut (Obj.apply env op x y)) (rOut (Obj.Spec.apply env op x y)) "-"
     | _, _, _ => "bad-op"
   | _ => "bad-op"
 
